@@ -63,6 +63,23 @@ Theorem C13_every_field_has_slot : forall s, In s MesgdefSpec.mspecs -> forall n
 Proof. exact every_field_has_slot. Qed.
 Print Assumptions C13_every_field_has_slot.
 
+(* a known field of the input that is the only one with its number, carries a value valid for the slot of that number
+   (norm_value: right type, not the invalid value; fixed arrays padded / cut) and is marked only if it is a component
+   destination and expanded fields are asked for, is in the output with that value and that mark *)
+Theorem C13_known_field_kept : forall s, In s MesgdefSpec.mspecs -> forall o m f mf v',
+  In f (m_fields m) -> goes_unknown s f = false -> only_one s (m_fields m) f ->
+  In mf (ms_fields s) -> mf_num mf = f_num f ->
+  norm_value (mf_acc mf) (Some (f_value f)) = Some v' ->
+  (f_expanded f = true -> expandable s (f_num f) = true /\ include_expanded o = true) ->
+  exists r, bind (reset s m) (to_mesg std_fac s o) = Ok r /\
+            In (created std_fac s (f_num f) v' (f_expanded f)) (m_fields r).
+Proof.
+  intros s H o m f mf v' H1 H2 H3 H4 H5 H6 H7. exists (normalise std_fac s o m). split.
+  - exact (mesg_struct_mesg std_fac s (wf_core_of_in s H) o m).
+  - exact (known_field_kept std_fac s o m f mf v' H1 H2 H3 H4 H5 H6 H7).
+Qed.
+Print Assumptions C13_known_field_kept.
+
 (* ---- the three input classes on which the statement of C13 is false of the faithful model (known findings) *)
 Definition hr_marked : message := mkmesg 20 [mkfield 3 true 2 (VNum TU8 100) true] [].
 Theorem C13_mark_on_non_destination_refuted : exists s o m, In s MesgdefSpec.mspecs /\
